@@ -92,6 +92,14 @@ class Check:
         self.execs = []
         self.extra = {}
         self.samples = []
+        rd = os.path.join(EVID, 'replay')
+        if os.path.isdir(rd):
+            for f in os.listdir(rd):
+                if f.startswith(prop + '-'):
+                    try:
+                        os.remove(os.path.join(rd, f))
+                    except OSError:
+                        pass
 
     def load(self):
         self.prog, self.meta = frontend.load()
